@@ -171,6 +171,16 @@ def run_class_case(ci, pool):
         r = roundtrip_ok(od, cls, order)
         if r is not True:
             return (ver, name, "from datetime") + r
+    # constructed with the library's defaults (generated id, current time)
+    dflt = {k: v for k, v in doc.items() if k not in ("type", "id", "created", "modified", "spec_version")}
+    try:
+        odf = cls(**dflt)
+    except (STIXError, ValueError, TypeError):
+        odf = None                                   # (the identifier is required for some classes, e.g. 2.0 bundles' members)
+    if odf is not None:
+        r = roundtrip_ok(odf, cls, order)
+        if r is not True:
+            return (ver, name, "defaults") + r
     return True
 
 
